@@ -280,6 +280,8 @@ def plan_C20(tier):
                 for fam in strs:
                     for cont in STR_CONT[fam]:
                         items += strm(fam, cont, n, nv=nv, p=1, i=2 if n < 4 else 1, sp=1 if n < 4 else 0, st=1 if n < 3 else 0)
+                        if k == 1 and n < 4:
+                            items += strm(fam, cont, n, nam=nv, na=1, p=1, i=2, sp=1 if n < 3 else 0)
     # no never-child: first sentence on the plain spaces
     items += fut_small(futs, tier)
     items += str_small(strs, tier)
@@ -440,6 +442,9 @@ def never_items(kind, fam, tier):
                     if kind == "str":
                         kw["i"] = 2 if n == 2 else 1
                     out += mk(fam, cont, n, **kw)
+                    if kind == "str" and k == 1:
+                        # the same positions with an input that delivers one item and then stays Pending forever
+                        out += mk(fam, cont, n, nam=nv, na=1, p=1, i=2, sp=1, st=1 if n == 2 else 0)
     return out
 
 
@@ -464,7 +469,7 @@ def plan_C08(tier):
 
 
 def plan_C09(tier):
-    return {"items": str_family("zip", tier, False, 2), "bounds": "tuples 1..12, arrays, Vecs, StreamExt::zip; all length vectors with lengths <=2 (3 thorough) via early end; k-th items arriving in any order any number of polls apart for N<=3"}
+    return {"items": str_family("zip", tier, False, 2) + never_items("str", "zip", tier), "bounds": "tuples 1..12, arrays, Vecs, StreamExt::zip; all length vectors with lengths <=2 (3 thorough) via early end; k-th items arriving in any order any number of polls apart for N<=3"}
 
 
 def plan_C10(tier):
@@ -499,6 +504,7 @@ def plan_C12(tier):
     items += grp("sgroup", init=3, mm=3, ops=0, p=0, i=2)
     for nv in (1, 2, 5):
         items += grp("sgroup", keyed=1, nv=nv, init=2, mm=4, ops=3, p=1, i=2, st=1, sp=1, dev=4 if quick else 5)
+        items += grp("sgroup", nam=nv, na=1, init=2, mm=4, ops=3, p=1, i=2, st=1, sp=1, dev=4 if quick else 5)
     if not quick:
         items += grp("sgroup", init=2, mm=4, ops=3, p=1, i=2, st=1, sp=1, dr=1, dev=6)
     return {"items": items, "bounds": "as C11 for StreamGroup: member scripts with I<=2 items, P<=1; several members ending in the same poll; growth while members pend"}
